@@ -145,7 +145,7 @@ func runCodec(tier string, seed int64, summaryPath, outPath string) {
 		}
 		return b
 	}
-	var protoCases, u64Cases, timeCases, mpCases []string
+	var protoCases, u64Cases, timeCases, mpCases, refusedCases []string
 	w0, _ := wallet.New()
 	w1, _ := wallet.New()
 	ws, _ := wallet.New()
@@ -250,6 +250,10 @@ func runCodec(tier string, seed int64, summaryPath, outPath string) {
 		if err != nil {
 			sum.Kinds["proto.marshal_error"]++
 			if !utf8.ValidString(v.Transaction.Subject) {
+				if h := hvCoq(&v); len(refusedCases) < 12 && len(h) < 40000 {
+					refusedCases = append(refusedCases, h)
+					sum.Kinds["protowire.marshal_refusal_compared"]++
+				}
 				viol("proto-nonutf8-rejected", map[string]any{"field": "subject", "len": len(v.Transaction.Subject), "err": err.Error()})
 			} else {
 				viol("proto-marshal-failed", map[string]any{"err": err.Error()})
@@ -452,7 +456,8 @@ func runCodec(tier string, seed int64, summaryPath, outPath string) {
 	b.WriteString("Definition bad_u64 := map fst (filter (fun p => match snd p with (x, e) => negb (bytes_eqb (enc_u64 x) e && match dec_u64 e with Some (y, []) => Z.eqb x y | _ => false end) end) (combine (seq 1000 (length u64_cases)) u64_cases)).\n")
 	b.WriteString("Definition bad_time := map fst (filter (fun p => match snd p with (s, n, e) => negb (bytes_eqb (enc_time s n) e && match dec_time e with Some (s', n') => Z.eqb s s' && Z.eqb n n' | None => false end) end) (combine (seq 2000 (length time_cases)) time_cases)).\n")
 	b.WriteString("Import Coq.Strings.String.\nDefinition mp_cases : list mpcase := [\n" + strings.Join(mpCases, ";\n") + "].\n")
-	b.WriteString("Definition bad := Eval vm_compute in (app (app (app bad_proto bad_u64) bad_time) (bad_msgpack 3000 mp_cases)).\nPrint bad.\n")
+	b.WriteString("Definition refused_cases : list mvtx := [\n" + strings.Join(refusedCases, ";\n") + "].\n")
+	b.WriteString("Definition bad := Eval vm_compute in (app (app (app (app bad_proto bad_u64) bad_time) (bad_msgpack 3000 mp_cases)) (bad_refused 5000 refused_cases)).\nPrint bad.\n")
 	os.WriteFile(outPath, b.Bytes(), 0644)
 	js, _ := json.MarshalIndent(sum, "", " ")
 	os.WriteFile(summaryPath, js, 0644)
@@ -530,6 +535,155 @@ func coqZ(x int64) string {
 type pbw struct {
 	raw, alt []byte
 	mask     string
+	muts     []string
+	wrap     string
+}
+
+// pbEnvelope: the two gossip envelopes around this vertex / its transaction with a list of gossiper entries (0-3, one with an empty digest)
+func pbEnvelope(pv *protobufcompiled.Vertex, rng *rand.Rand, sum *codecSummary) string {
+	var gl []*protobufcompiled.Gossiper
+	var rows []string
+	n := 1 + rng.Intn(3)
+	if rng.Intn(6) == 0 {
+		n = 0
+	}
+	for k := n; k > 0; k-- {
+		addr := make([]byte, 40+rng.Intn(12))
+		for i := range addr {
+			addr[i] = byte('a' + rng.Intn(26))
+		}
+		dig := make([]byte, 32)
+		rng.Read(dig)
+		if rng.Intn(4) == 0 {
+			dig = nil
+		}
+		sg := make([]byte, 64)
+		rng.Read(sg)
+		gl = append(gl, &protobufcompiled.Gossiper{Address: string(addr), Digest: dig, Signature: sg})
+		rows = append(rows, fmt.Sprintf("GS %s %s %s", coqSegs(addr), coqSegs(dig), coqSegs(sg)))
+	}
+	vm, err1 := proto.Marshal(&protobufcompiled.VrxMsgGossip{Vertex: pv, Gossipers: gl})
+	tm, err2 := proto.Marshal(&protobufcompiled.TrxMsgGossip{Trx: pv.Transaction, Gossipers: gl})
+	if err1 != nil || err2 != nil {
+		return ""
+	}
+	sum.Kinds["protowire.envelopes_byte_exact"] += 2
+	sum.Kinds[fmt.Sprintf("protowire.envelope_gossipers_%d", len(gl))]++
+	return fmt.Sprintf("GW [%s] %s %s", strings.Join(rows, "; "), coqSegs(vm), coqSegs(tm))
+}
+
+// hasGroup: does a message the library accepted carry a start-group record at a level the library parses (top level, Transaction = field 4,
+// Spice = field 9 of it)? Groups are the one part of the wire grammar the model does not cover.
+func hasGroup(b []byte, level int) bool {
+	for len(b) > 0 {
+		num, typ, n := protowire.ConsumeTag(b)
+		if n < 0 {
+			return false
+		}
+		if typ == protowire.StartGroupType {
+			return true
+		}
+		m := protowire.ConsumeFieldValue(num, typ, b[n:])
+		if m < 0 {
+			return false
+		}
+		if typ == protowire.BytesType && ((level == 0 && num == 4) || (level == 1 && num == 9)) {
+			if body, k := protowire.ConsumeBytes(b[n:]); k >= 0 && hasGroup(body, level+1) {
+				return true
+			}
+		}
+		b = b[n+m:]
+	}
+	return false
+}
+
+func fnv1a(b []byte) uint64 {
+	h := fnv.New64a()
+	h.Write(b)
+	return h.Sum64()
+}
+
+// pbMutants: edits of the real bytes (bit flips, a byte of a string made 0xff, inserted fixed32/fixed64 records, a duplicated record, a
+// changed length) with what proto.Unmarshal makes of each: refused, or the canonical bytes of the message it read (unknown fields dropped)
+func pbMutants(raw []byte, recs [][]byte, rng *rand.Rand, sum *codecSummary) []string {
+	var out []string
+	bounds := []int{0}
+	for _, r := range recs {
+		bounds = append(bounds, bounds[len(bounds)-1]+len(r))
+	}
+	for k := 0; k < 48; k++ {
+		pos, del := 0, 0
+		var ins []byte
+		kind := ""
+		switch k % 6 {
+		case 0:
+			pos, del = rng.Intn(len(raw)), 1
+			ins = []byte{raw[pos] ^ byte(1<<uint(rng.Intn(8)))}
+			kind = "bit_flip"
+		case 1: // the head of a record: tag, length, first bytes of an embedded message
+			i := rng.Intn(len(recs))
+			h := len(recs[i])
+			if h > 8 {
+				h = 8
+			}
+			pos, del = bounds[i]+rng.Intn(h), 1
+			ins = []byte{raw[pos] ^ byte(1<<uint(rng.Intn(8)))}
+			kind = "bit_flip_record_head"
+		case 2:
+			pos, del = rng.Intn(len(raw)), 1
+			ins = []byte{0xff}
+			kind = "byte_ff"
+		case 3:
+			pos = bounds[rng.Intn(len(bounds))]
+			num := protowire.Number(1 + rng.Intn(12))
+			if rng.Intn(2) == 0 {
+				ins = protowire.AppendFixed64(protowire.AppendTag(nil, num, protowire.Fixed64Type), rng.Uint64())
+			} else {
+				ins = protowire.AppendFixed32(protowire.AppendTag(nil, num, protowire.Fixed32Type), rng.Uint32())
+			}
+			kind = "fixed_record_inserted"
+		case 4:
+			i := rng.Intn(len(recs))
+			pos = bounds[rng.Intn(len(bounds))]
+			ins = recs[i]
+			kind = "record_duplicated"
+		case 5:
+			i := rng.Intn(len(recs))
+			h := len(recs[i])
+			if h > 6 {
+				h = 6
+			}
+			pos, del = bounds[i]+rng.Intn(h), 1
+			ins = []byte{raw[pos] + byte(1+rng.Intn(3))}
+			kind = "byte_incremented"
+		}
+		mut := append(append(append([]byte{}, raw[:pos]...), ins...), raw[pos+del:]...)
+		var p protobufcompiled.Vertex
+		ex := "NOEX"
+		if err := proto.Unmarshal(mut, &p); err == nil {
+			if hasGroup(mut, 0) {
+				sum.Kinds["protowire.mutant_skipped_group"]++
+				continue
+			}
+			p.ProtoReflect().SetUnknown(nil)
+			if p.Transaction != nil {
+				p.Transaction.ProtoReflect().SetUnknown(nil)
+				if p.Transaction.Spice != nil {
+					p.Transaction.Spice.ProtoReflect().SetUnknown(nil)
+				}
+			}
+			canon, err := proto.Marshal(&p)
+			if err != nil {
+				continue
+			}
+			ex = fmt.Sprintf("(EX %d %d)", len(canon), fnv1a(canon))
+			sum.Kinds["protowire.mutant_accepted."+kind]++
+		} else {
+			sum.Kinds["protowire.mutant_refused."+kind]++
+		}
+		out = append(out, fmt.Sprintf("MU %d %d \"%s\" %s", pos, del, hex.EncodeToString(ins), ex))
+	}
+	return out
 }
 
 func pbWire(pv *protobufcompiled.Vertex, raw []byte, merr error, sum *codecSummary, viol func(string, map[string]any), ci int) *pbw {
@@ -564,7 +718,7 @@ func pbWire(pv *protobufcompiled.Vertex, raw []byte, merr error, sum *codecSumma
 	}
 	sum.Kinds["protowire.byte_exact_cases"]++
 	sum.Kinds["protowire.reordered_plus_unknown_field"]++
-	if len(raw) <= 700 && sum.Kinds["protowire.prefix_swept_cases"] < 10 {
+	if len(raw) <= 700 && sum.Kinds["protowire.prefix_swept_cases"] < 6 {
 		var m strings.Builder
 		for i := 0; i < len(raw); i++ {
 			var p protobufcompiled.Vertex
@@ -578,21 +732,27 @@ func pbWire(pv *protobufcompiled.Vertex, raw []byte, merr error, sum *codecSumma
 		}
 		w.mask = m.String()
 		sum.Kinds["protowire.prefix_swept_cases"]++
+		w.muts = pbMutants(raw, recs, rand.New(rand.NewSource(int64(ci)*7919+1)), sum)
+		w.wrap = pbEnvelope(pv, rand.New(rand.NewSource(int64(ci)*104729+3)), sum)
 	}
 	return w
 }
 
 // mvtxCoq: a vertex as model fields next to the bytes the real encoders produced
 func mvtxCoq(v *accountant.Vertex, venc, tenc []byte, w *pbw) string {
-	t := &v.Transaction
 	head, tail := "MC", ""
 	if w != nil {
 		head = "MCP"
-		tail = fmt.Sprintf(" %s %s \"%s\"", coqSegs(w.raw), coqSegs(w.alt), w.mask)
+		tail = fmt.Sprintf(" %s %s \"%s\" [%s] [%s]", coqSegs(w.raw), coqSegs(w.alt), w.mask, strings.Join(w.muts, "; "), w.wrap)
 	}
-	return fmt.Sprintf("(%s (HV %s %s %s %s %s %s %s %s %s %s %s %s %s %d%%Z %d%%Z %s %s %s %d%%Z) %s %s%s)", head,
+	return fmt.Sprintf("(%s %s %s %s%s)", head, hvCoq(v), coqSegs(venc), coqSegs(tenc), tail)
+}
+
+func hvCoq(v *accountant.Vertex) string {
+	t := &v.Transaction
+	return fmt.Sprintf("(HV %s %s %s %s %s %s %s %s %s %s %s %s %s %d%%Z %d%%Z %s %s %s %d%%Z)",
 		coqSegs([]byte(v.SignerPublicAddress)), coqZ(v.CreatedAt.Unix()), coqZ(int64(v.CreatedAt.Nanosecond())), coqOSegs(v.Signature),
 		coqZ(t.CreatedAt.Unix()), coqZ(int64(t.CreatedAt.Nanosecond())), coqSegs([]byte(t.IssuerAddress)), coqSegs([]byte(t.ReceiverAddress)), coqSegs([]byte(t.Subject)),
 		coqOSegs(t.Data), coqOSegs(t.IssuerSignature), coqOSegs(t.ReceiverSignature), coqSegs(t.Hash[:]), t.Spice.Currency, t.Spice.SupplementaryCurrency,
-		coqSegs(v.Hash[:]), coqSegs(v.LeftParentHash[:]), coqSegs(v.RightParentHash[:]), v.Weight, coqSegs(venc), coqSegs(tenc), tail)
+		coqSegs(v.Hash[:]), coqSegs(v.LeftParentHash[:]), coqSegs(v.RightParentHash[:]), v.Weight)
 }
